@@ -41,6 +41,9 @@ use tokio::sync::{
 };
 use tracing::{debug, debug_span, trace, warn};
 
+#[cfg(feature = "verif")]
+mod verif_hooks;
+
 type ConnectionId = SeqNr;
 
 // When we get incoming packets this connection id is used to pick the stream.
@@ -356,17 +359,25 @@ impl<T: Transport, E: UtpEnvironment> Dispatcher<T, E> {
 
     async fn run_once(&mut self, read_buf: &mut [u8]) -> crate::Result<()> {
         self.cleanup_accept_queue()?;
+        #[cfg(feature = "verif")]
+        self.verif_gauge();
 
         tokio::select! {
             accept = self.accept_queue.rx.recv(), if self.accept_queue.next_available_acceptor.is_none() => {
+                #[cfg(feature = "verif")]
+                self.verif_note_arm(0);
                 let accept = accept.unwrap();
                 self.accept_queue.next_available_acceptor = Some(accept);
             }
             control_request = self.control_rx.recv() => {
+                #[cfg(feature = "verif")]
+                self.verif_note_arm(1);
                 let control = control_request.unwrap();
                 self.on_control(control).await;
             },
             recv = self.socket.transport.recv_from(read_buf) => {
+                #[cfg(feature = "verif")]
+                self.verif_note_arm(2);
                 let (len, addr) = recv.map_err(Error::Recv)?;
                 let message = match UtpMessage::deserialize(&read_buf[..len]) {
                     Some(msg) => msg,
@@ -379,6 +390,8 @@ impl<T: Transport, E: UtpEnvironment> Dispatcher<T, E> {
             }
         }
 
+        #[cfg(feature = "verif")]
+        self.verif_gauge();
         Ok(())
     }
 
